@@ -145,6 +145,9 @@ func (h *webHarness) buildStd(chi bool) webRouter {
 			opts = append(opts, godichi.WithMiddleware(func(s godi.Scope, r *http.Request) error { return h.mw(i, s, r.Header.Get("X-Req")) }))
 		}
 		mwf = godichi.ScopeMiddleware(h.e.Prov, opts...)
+		// a second, later-built instance with its own middleware must not influence the first
+		other := godichi.ScopeMiddleware(h.e.Prov, godichi.WithMiddleware(func(s godi.Scope, r *http.Request) error { lr(r).ev("mwforeign"); return errMw }), godichi.WithMiddleware(func(s godi.Scope, r *http.Request) error { lr(r).ev("mwforeign2"); return nil }))
+		mux.Handle("/other", other(http.HandlerFunc(func(w http.ResponseWriter, r *http.Request) {})))
 		var hopts []godichi.HandlerOption
 		hopts = append(hopts, godichi.WithPanicRecovery(h.c.Recovery))
 		if h.c.CustomHands {
@@ -174,6 +177,8 @@ func (h *webHarness) buildStd(chi bool) webRouter {
 			opts = append(opts, godihttp.WithMiddleware(func(s godi.Scope, r *http.Request) error { return h.mw(i, s, r.Header.Get("X-Req")) }))
 		}
 		mwf = godihttp.ScopeMiddleware(h.e.Prov, opts...)
+		other := godihttp.ScopeMiddleware(h.e.Prov, godihttp.WithMiddleware(func(s godi.Scope, r *http.Request) error { lr(r).ev("mwforeign"); return errMw }), godihttp.WithMiddleware(func(s godi.Scope, r *http.Request) error { lr(r).ev("mwforeign2"); return nil }))
+		mux.Handle("/other", other(http.HandlerFunc(func(w http.ResponseWriter, r *http.Request) {})))
 		var hopts []godihttp.HandlerOption
 		hopts = append(hopts, godihttp.WithPanicRecovery(h.c.Recovery))
 		if h.c.CustomHands {
@@ -234,6 +239,8 @@ func (h *webHarness) buildGin() webRouter {
 		opts = append(opts, godigin.WithMiddleware(func(s godi.Scope, c *gin.Context) error { return h.mw(i, s, c.GetHeader("X-Req")) }))
 	}
 	mw := godigin.ScopeMiddleware(h.e.Prov, opts...)
+	other := godigin.ScopeMiddleware(h.e.Prov, godigin.WithMiddleware(func(s godi.Scope, c *gin.Context) error { lr(c).ev("mwforeign"); return errMw }), godigin.WithMiddleware(func(s godi.Scope, c *gin.Context) error { lr(c).ev("mwforeign2"); return nil }))
+	eng.GET("/other", other, func(c *gin.Context) {})
 	var hopts []godigin.HandlerOption
 	hopts = append(hopts, godigin.WithPanicRecovery(h.c.Recovery))
 	if h.c.CustomHands {
@@ -286,6 +293,8 @@ func (h *webHarness) buildEcho() webRouter {
 		opts = append(opts, godiecho.WithMiddleware(func(s godi.Scope, c echo.Context) error { return h.mw(i, s, c.Request().Header.Get("X-Req")) }))
 	}
 	mw := godiecho.ScopeMiddleware(h.e.Prov, opts...)
+	other := godiecho.ScopeMiddleware(h.e.Prov, godiecho.WithMiddleware(func(s godi.Scope, c echo.Context) error { lr(c).ev("mwforeign"); return errMw }), godiecho.WithMiddleware(func(s godi.Scope, c echo.Context) error { lr(c).ev("mwforeign2"); return nil }))
+	e.GET("/other", func(c echo.Context) error { return nil }, other)
 	var hopts []godiecho.HandlerOption
 	hopts = append(hopts, godiecho.WithPanicRecovery(h.c.Recovery))
 	if h.c.CustomHands {
@@ -343,6 +352,8 @@ func (h *webHarness) buildFiber() webRouter {
 		opts = append(opts, godifiber.WithMiddleware(func(s godi.Scope, c *fiber.Ctx) error { return h.mw(i, s, c.Get("X-Req")) }))
 	}
 	mw := godifiber.ScopeMiddleware(h.e.Prov, opts...)
+	other := godifiber.ScopeMiddleware(h.e.Prov, godifiber.WithMiddleware(func(s godi.Scope, c *fiber.Ctx) error { lr(c).ev("mwforeign"); return errMw }), godifiber.WithMiddleware(func(s godi.Scope, c *fiber.Ctx) error { lr(c).ev("mwforeign2"); return nil }))
+	app.Get("/other", other, func(c *fiber.Ctx) error { return nil })
 	var hopts []godifiber.HandlerOption
 	hopts = append(hopts, godifiber.WithPanicRecovery(h.c.Recovery))
 	if h.c.CustomHands {
@@ -820,7 +831,7 @@ func (h *webHarness) oneRequestConc(router webRouter, exit string, reqNo int) []
 func init() {
 	mc.Register(&mc.Check{
 		Prop:        "C16",
-		Rule:        "sequential: for each of net/http, chi (plain net/http chain), gin, echo, fiber: every combination of {default / custom error + close-error handlers} x {default / custom Handle handlers} x {recovery on / off} x {0, 1, 2 configured middlewares} x exit path {ok via Handle, ok via a raw handler using FromContext, middleware error at every position, handler error (echo, fiber), handler panic, scope-creation failure (failing initializer), provider closed, controller unregistered, route without the middleware}, plus every ordered pair of exit paths as a two-request sequence on one router (pooled contexts); concurrent: two requests through one provider in two goroutines for http / chi / gin / echo, every schedule with <=2 preemptions (godi's synchronisation points and user callbacks; framework internals run atomically). Oracle per request: scopes created, which of handler / error / scope-error / resolution-error / panic handlers ran, middleware order, one and the same scope seen by all, controller resolved from it, every instance created for the request closed exactly once and the scope refusing use when the request has ended, panics swallowed iff recovery is enabled. distinct = canonical event strings.",
+		Rule:        "sequential: for each of net/http, chi (plain net/http chain), gin, echo, fiber: every combination of {default / custom error + close-error handlers} x {default / custom Handle handlers} x {recovery on / off} x {0, 1, 2 configured middlewares} x exit path {ok via Handle, ok via a raw handler using FromContext, middleware error at every position, handler error (echo, fiber), handler panic, scope-creation failure (failing initializer), provider closed, controller unregistered, route without the middleware}, plus every ordered pair of exit paths as a two-request sequence on one router (pooled contexts); concurrent: two requests through one provider in two goroutines for http / chi / gin / echo, every schedule with <=2 preemptions (godi's synchronisation points and user callbacks; framework internals run atomically). A second, later-built ScopeMiddleware instance with different middlewares exists on every router and must not influence the first. Oracle per request: scopes created, which of handler / error / scope-error / resolution-error / panic handlers ran, middleware order, one and the same scope seen by all, controller resolved from it, every instance created for the request closed exactly once and the scope refusing use when the request has ended, panics swallowed iff recovery is enabled. distinct = canonical event strings.",
 		Assume:      []string{"fiber is always run behind fiber's own recover middleware (a panic reaching fasthttp would kill the process) and via app.Test", "go-chi itself is not a dependency of the chi adapter; it is driven with a plain net/http chain"},
 		MinOutcomes: 10,
 		Jobs: func(tier string) []mc.Job {
